@@ -593,6 +593,12 @@ func (k *Checker) onProposeReturn(n *Node, tags []int, err error) {
 	x := k.nc[n.id]
 	for _, t := range tags {
 		p := k.propState[t]
+		if err == errIndeterminate {
+			// E3: the Node did not tell the caller whether raft accepted the
+			// proposal; nothing can be concluded from this call
+			p.unknown++
+			continue
+		}
 		if err != nil {
 			p.dropped++
 			k.lin.onWriteDropped(t)
